@@ -169,6 +169,87 @@ def run(tier, seed, replay=None):
     if bad:
         cn, pl, parts, r1, r2 = rows[bad[0]]
         broken.append(BrokenTie(f'resolver model disagrees with the implementation on {parts} in catalog {cn}', f'impl: {r1} / {r2}; flags {flags[bad[0]]}'))
+    # ---------------- catalog construction: QueryPlanner.__init__ against Model/Resolve.mk_catalog (mixed-case names,
+    # integrations as names / dicts, predictor metadata in list and legacy dict form, with and without integration_name)
+    crows = []
+    pool = ['int1', 'Int2', 'INT3', 'proj', 'Proj', 'PROJ2', 'Files', 'views', 'MindsDB']
+    for _ in range(60 if tier == 'quick' else 600):
+        ents, es = [], []
+        for nm in rng.sample(pool, rng.randint(1, 4)):
+            k = rng.random()
+            if k < 0.4:
+                ents.append(nm)
+                es.append(f'CName {nl(nm)}')
+            else:
+                data = rng.random() < 0.6
+                ents.append({'name': nm, 'type': 'data' if data else 'project', 'class_type': 'sql'})
+                es.append(f'CDict {nl(nm)} {"true" if data else "false"}')
+        pn = rng.choice([None, None, 'MyNs', 'proj'])
+        preds = []
+        for i in range(rng.randint(0, 3)):
+            preds.append((f'p{i}', rng.choice([None, 'proj', 'Proj', 'PROJ2', 'Other'])))
+        ns = [(iname if iname is not None else (pn.lower() if pn else 'mindsdb')) for _, iname in preds]
+        if rng.random() < 0.5:
+            meta = [dict({'name': n_}, **({'integration_name': i_} if i_ is not None else {})) for n_, i_ in preds]
+        else:
+            meta = {n_: ({'integration_name': i_} if i_ is not None else {}) for n_, i_ in preds}
+            ns = [(i_ if i_ is not None else (pn.lower() if pn else 'mindsdb')) for n_, i_ in dict(preds).items()]
+        kw = dict(integrations=copy.deepcopy(ents), predictor_metadata=copy.deepcopy(meta))
+        if pn:
+            kw['predictor_namespace'] = pn
+        try:
+            plc = QueryPlanner(**kw)
+        except Exception as e:
+            continue
+        crows.append((es, ns, list(plc.databases), list(plc.projects), kw))
+    lines = ['From Coq Require Import NArith List Bool.', 'From MSV Require Import Lib.PyStr Model.Resolve.',
+             'Import ListNotations.', 'Local Open Scope N_scope.',
+             'Definition sub (a b : list str) : bool := forallb (fun x => mems x b) a.',
+             'Definition ok (c : list centry * list str * list str * list str) : bool :=',
+             "  let '(es, ns, dbs, projs) := c in let C := mk_catalog es ns None in",
+             '  sub (c_projects C) projs && sub projs (c_projects C) && sub (c_databases C) dbs && sub dbs (c_databases C).',
+             'Definition cases := [',
+             ';\n'.join(f' ([{"; ".join(es)}], {nll(ns)}, {nll(dbs)}, {nll(projs)})' for es, ns, dbs, projs, kw in crows),
+             '].', 'Eval vm_compute in map ok cases.']
+    write_if_changed(GEN / 'C10_catalog.v', '\n'.join(lines) + '\n')
+    rc, out = compile_gen('C10_catalog')
+    cbad = []
+    if rc != 0:
+        broken.append(BrokenTie('C10 catalog cases do not compile', out[-1000:]))
+    else:
+        vals = coq_eval_lists(out)
+        fl = re.findall(r'true|false', vals[-1] if vals else '')
+        cbad = [i for i, f in enumerate(fl) if f == 'false']
+    R.obligation(f'catalog construction: QueryPlanner.__init__ = Model/Resolve.mk_catalog on {len(crows)} catalogs (mixed-case names, both '
+                 f'metadata forms)', not cbad and rc == 0)
+    if cbad:
+        es, ns, dbs, projs, kw = crows[cbad[0]]
+        # a concrete failing input: a model of a project whose name differs from its lower-case form must still be routed to it
+        concrete = None
+        for i in cbad:
+            es_, ns_, dbs_, projs_, kw_ = crows[i]
+            for pname in [p for p in projs_ if p != p.lower()]:
+                meta_ = kw_['predictor_metadata']
+                names_ = [m['name'] for m in meta_ if m.get('integration_name') == pname] if isinstance(meta_, list) else \
+                         [n_ for n_, m in meta_.items() if m.get('integration_name') == pname]
+                if names_:
+                    try:
+                        plx = QueryPlanner(**copy.deepcopy(kw_))
+                        r = plx.resolve_database_table(Identifier(parts=[pname.lower(), names_[0]]))
+                        concrete = {'catalog': kw_, 'name': f'{pname.lower()}.{names_[0]}', 'resolve_database_table': [r[0], list(r[1].parts)],
+                                    'expected_database': pname.lower()}
+                    except PlanningException as e:
+                        concrete = {'catalog': kw_, 'name': f'{pname.lower()}.{names_[0]}', 'resolve_database_table': f'PlanningException: {e}',
+                                    'expected_database': pname.lower()}
+                    if concrete and concrete['resolve_database_table'] != [pname.lower(), [names_[0]]]:
+                        break
+                    concrete = None
+            if concrete:
+                break
+        if concrete:
+            R.violation(dict(concrete, what='a model of a project given with upper-case letters in the metadata is not routed to that project'))
+        else:
+            broken.append(BrokenTie(f'catalog model disagrees with QueryPlanner.__init__ on {kw}', f'databases {dbs}, projects {projs}'))
     # the two resolvers against each other (the judge for the join path): where they differ on the implementation
     differ = [(cn, parts, r1, r2) for cn, pl, parts, r1, r2 in rows if r1 != r2 and len(parts) > 1]
     for cn, parts, r1, r2 in differ[:50]:
